@@ -373,6 +373,118 @@ static int op_gather_cell(void) {
   return rc;
 }
 
+
+/* ---- gather_file: the REAL ref_gather_by_extension to a .meshb in the cwd, read back by a minimal reader ---- */
+static int rd_i32(FILE *f, long long *v) {
+  int x;
+  if (1 != fread(&x, 4, 1, f)) return 0;
+  *v = x;
+  return 1;
+}
+/* prints `N xyz.. ntri recs.. ntet recs..` of a version-2 meshb (int32 positions and ints, float64 coordinates) */
+static int dump_meshb(const char *fname) {
+  FILE *f = fopen(fname, "rb");
+  long long code, version, kw, next, n, dim = 3, v;
+  long long ntri = 0, ntet = 0, nnode = 0;
+  char *tri = NULL, *tet = NULL, *xyz = NULL;
+  size_t tri_n = 0, tet_n = 0, xyz_n = 0;
+  int ok = 0, i, j;
+  if (!f) return BAD;
+  if (!rd_i32(f, &code) || !rd_i32(f, &version) || code != 1 || version != 2) goto done;
+  for (;;) {
+    if (!rd_i32(f, &kw)) goto done;
+    if (!rd_i32(f, &next)) goto done;
+    if (54 == kw) break;
+    if (3 == kw) {
+      if (!rd_i32(f, &dim)) goto done;
+    } else if (4 == kw) {
+      if (!rd_i32(f, &nnode) || 3 != dim) goto done;
+      for (i = 0; i < nnode; i++) {
+        double d[3];
+        char b[80];
+        if (3 != fread(d, 8, 3, f) || !rd_i32(f, &v)) goto done;
+        for (j = 0; j < 3; j++) {
+          uint64_t u;
+          memcpy(&u, &d[j], 8);
+          if (d[j] != d[j]) snprintf(b, sizeof b, " nan");
+          else snprintf(b, sizeof b, " %016llx", (unsigned long long)u);
+          xyz = (char *)realloc(xyz, xyz_n + strlen(b) + 1);
+          memcpy(xyz + xyz_n, b, strlen(b) + 1);
+          xyz_n += strlen(b);
+        }
+      }
+    } else if (6 == kw || 8 == kw) {
+      int per = (6 == kw) ? 4 : 5;
+      char **dst = (6 == kw) ? &tri : &tet;
+      size_t *dn = (6 == kw) ? &tri_n : &tet_n;
+      if (!rd_i32(f, &n)) goto done;
+      if (6 == kw) ntri = n; else ntet = n;
+      for (i = 0; i < n * per; i++) {
+        char b[32];
+        if (!rd_i32(f, &v)) goto done;
+        snprintf(b, sizeof b, " %lld", v);
+        *dst = (char *)realloc(*dst, *dn + strlen(b) + 1);
+        memcpy(*dst + *dn, b, strlen(b) + 1);
+        *dn += strlen(b);
+      }
+    } else {
+      if (next <= 0 || 0 != fseek(f, (long)next, SEEK_SET)) goto done;
+    }
+  }
+  ok = 1;
+  r_ll(nnode);
+  if (xyz) r_put(xyz + 1);
+  r_ll(ntri);
+  if (tri) r_put(tri + 1);
+  r_ll(ntet);
+  if (tet) r_put(tet + 1);
+done:
+  fclose(f);
+  free(xyz);
+  free(tri);
+  free(tet);
+  return ok ? 0 : BAD;
+}
+
+static int op_gather_file(void) {
+  long long rbl, N;
+  int g, k, ct = 0, cq = 0, rc = 0;
+  REF_GRID ref_grid = NULL;
+  REF_NODE ref_node;
+  REF_STATUS st;
+  char fname[64];
+  if (NHDR != 2 || !is_int_tok(HDR(0)) || strlen(HDR(0)) > 11 || !is_nat_tok(HDR(1))) return BAD;
+  rbl = h_i(HDR(0));
+  N = h_i(HDR(1));
+  if (N > 100000 || rbl > 2147483647LL || rbl < -2147483648LL) return BAD;
+  for (g = 0; g < np; g++) {
+    k = check_nodes(g, 1);
+    if (k < 0) return BAD;
+    if (check_cells(g, 1 + 5 * k, 3, k, 5, &ct)) return BAD;
+    if (check_cells(g, 1 + 5 * k + 1 + 4 * ct, 4, k, 5, &cq)) return BAD;
+    if (GLEN(g) != 1 + 5 * k + 1 + 4 * ct + 1 + 5 * cq) return BAD;
+  }
+  if (rbl > 0 && rbl / 32 == 0 && N > 0) return HANG;
+  if (REF_SUCCESS != ref_grid_create(&ref_grid, ref_mpi)) return BAD;
+  ref_node = ref_grid_node(ref_grid);
+  k = (int)h_i(GW(me, 0));
+  ct = (int)h_i(GW(me, 1 + 5 * k));
+  rc = add_nodes(ref_node, me, 1, k);
+  if (!rc && REF_SUCCESS != ref_node_initialize_n_global(ref_node, (REF_GLOB)N)) rc = BAD;
+  if (!rc) rc = add_cells(ref_node, ref_grid_tri(ref_grid), me, 1 + 5 * k, 3, ct);
+  if (!rc) rc = add_cells(ref_node, ref_grid_tet(ref_grid), me, 1 + 5 * k + 1 + 4 * ct, 4, (int)h_i(GW(me, 1 + 5 * k + 1 + 4 * ct)));
+  snprintf(fname, sizeof fname, "h_par_%d.meshb", (int)getppid());
+  if (!rc) {
+    ref_grid_mpi(ref_grid)->reduce_byte_limit = (REF_INT)rbl;
+    st = ref_gather_by_extension(ref_grid, fname);
+    r_put(h_status((int)st));
+    if (REF_SUCCESS == st && 0 == me) rc = dump_meshb(fname);
+    if (0 == me) remove(fname);
+  }
+  ref_grid_free(ref_grid);
+  return rc;
+}
+
 /* tokenise h_line in place (all ranks) */
 static void tokenise(void) {
   char *p;
@@ -440,6 +552,7 @@ int main(int argc, char *argv[]) {
       rc = BAD;
     } else if (!strcmp(op, "gather_node")) rc = op_gather_node();
     else if (!strcmp(op, "gather_cell")) rc = op_gather_cell();
+    else if (!strcmp(op, "gather_file")) rc = op_gather_file();
     else rc = BAD;
     alarm(0);
     if (0 == me) {
